@@ -394,7 +394,7 @@ def gen_digest_case(rng, cfg, world):
     if method in ('POST', 'PUT'):
         body = rng.choice(['', 'x=1', 'entity body', '\xff\x00bin'])
     uri = rng.choice(URIS)
-    qop = rng.choice([None, 'auth', 'auth', 'auth', 'auth-int'])
+    qop = rng.choice([None, None, 'auth', 'auth', 'auth', 'auth', 'auth', 'auth', 'auth', 'auth-int'])
     alg = rng.choice([None, None, 'MD5', 'MD5', 'MD5-sess'])
     if alg == 'MD5-sess' and qop is None and rng.random() < 0.7:
         qop = 'auth'
